@@ -87,6 +87,7 @@ func init() {
 		Assumptions: []string{"layouts are built with reflect.StructOf (exported field names; one level of embedding through an anonymous StructOf struct)", "for byte fields an unprefixed value: digit string is hexadecimal by the codec's own convention (a decimal reading is not asserted)", "process time zone UTC plus three odd zones"},
 		Plan: func(tier string) []Batch {
 			b := same(n(tier, 8, 16), Batch{Timeout: 20 * time.Minute})
+			b = append(b, same(n(tier, 1, 2), Batch{Race: true, Timeout: 30 * time.Minute, Procs: 8})...)
 			for _, z := range []string{"America/Santiago", "Asia/Kathmandu", "Pacific/Apia"} {
 				b = append(b, Batch{Env: []string{"TZ=" + z}, Timeout: 20 * time.Minute})
 			}
